@@ -26,7 +26,7 @@ ASSUMPTIONS = ['files are served by an in-memory reader with a .name attribute',
                'for "exactly the preceding statements"', 'statement menu and fault menu as listed in coverage']
 WITNESSES = ['prefix_applied', 'nothing_after_applied', 'fault_in_included_file', 'fault_in_nested_include',
              'fault_in_block_member', 'location_chain_checked', 'syntaxerror_lineno_checked', 'scope_restored',
-             'lock_restored', 'followup_parse_same', 'provenance_checked', 'multiline_statement_begin_line']
+             'lock_restored', 'followup_parse_same', 'provenance_checked', 'multiline_statement_begin_line', 'dynamic_registration_fault']
 
 MEM = {}
 
@@ -50,6 +50,13 @@ def setup():
   def deny(x=None, y=None):
     return (x, y)
   gin.config.register_file_reader(lambda p: NamedIO(MEM[p], p), lambda p: p in MEM)
+  import atexit, os, shutil, sys, tempfile  # pylint: disable=import-outside-toplevel,multiple-imports
+  d = tempfile.mkdtemp(prefix='c16_')
+  with open(os.path.join(d, 'c16mod.py'), 'w') as fh:
+    fh.write('def f(a=None, b=None, z=None):\n  return (a, b, z)\n\ndef g(p=None):\n  return p\n')
+  sys.path.insert(0, d)
+  atexit.register(lambda: shutil.rmtree(d, ignore_errors=True))
+  import c16mod  # pylint: disable=import-outside-toplevel,unused-import
 
 
 # ----------------------------------------------------------------------------------- menus
@@ -92,6 +99,28 @@ BLOCK_FAULTS = {
     'm_unknown_param': ("nope = 1", ValueError, 'semantic'),
     'm_unknown_reference': ("p = @c16.nonexistent()", ValueError, 'semantic'),
     'm_dotted_name': ("p.q = 1", SyntaxError, 'syntax'),
+}
+DHEAD = ['from __gin__ import dynamic_registration', 'import c16mod']
+DMENU = {
+    'dflat': "c16mod.f.a = 1",
+    'dscoped': "s/c16mod.f.b = 2",
+    'dblock': ('BLOCK', 'c16mod.g', ["p = [1,\n       2]"]),
+    'dinclude': ('INCLUDE', 'dinc1.gin'),
+    'dref': "c16mod.f.z = @c16mod.g()",
+}
+DINC = {
+    'dinc1.gin': DHEAD + ["c16mod.f.a = 'd1'", ('INCLUDE', 'dinc2.gin'), "c16mod.g.p = 'd1p'"],
+    'dinc2.gin': DHEAD + ["c16mod.f.b = 'd2'"],
+}
+DFAULTS = {
+    'd_unknown_attribute': ("c16mod.Nope.x = 1", AttributeError, 'semantic'),
+    'd_unknown_symbol': ("nope.fn.x = 1", NameError, 'semantic'),
+    'd_unknown_reference': ("c16mod.f.z = @c16mod.Nope()", AttributeError, 'semantic'),
+    'd_unknown_ref_symbol': ("c16mod.f.z = [1,\n  @nope.fn]", NameError, 'semantic'),
+    'd_unknown_block': ("c16mod.Nope:\n  x = 1", AttributeError, 'semantic'),
+    'd_unknown_param': ("c16mod.f.nope = 1", ValueError, 'semantic'),
+    'd_bad_value': ("c16mod.f.z = 1 +", SyntaxError, 'syntax'),
+    'd_bad_import': ("import no_such_module_c16d", ImportError, 'semantic'),
 }
 STARTS = ['empty', 'nonempty', 'unlocked_block', 'in_scope']
 
@@ -232,18 +261,25 @@ LOC_RE = re.compile(r'In (?:file "([^"]+)",|(bindings string)) line (\d+)')
 
 
 def check_case(case, res):
-  base, target, idx, fkind, member, start = case
-  files = {'TOP': [MENU[k] for k in base]}
-  files.update(INC)
+  base, target, idx, fkind, member, start = case[:6]
+  dynamic = fkind.startswith('d_')
+  if dynamic:
+    files = {'TOP': DHEAD + [DMENU[k] for k in base]}
+    files.update(DINC)
+  else:
+    files = {'TOP': [MENU[k] for k in base]}
+    files.update(INC)
   if member is None:
-    ftext, fexc, fk = FAULTS[fkind]
+    ftext, fexc, fk = (DFAULTS if dynamic else FAULTS)[fkind]
     mem_full, chain = build(files, target, idx, ftext)
     mem_ref, _ = build(files, target, idx, ftext, truncate=True)
   else:
     ftext, fexc, fk = BLOCK_FAULTS[fkind]
     mem_full, chain = build(files, target, idx, None, block_member=member, block_fault=ftext)
     mem_ref, _ = build(files, target, idx, None, block_member=member, block_fault=ftext, truncate=True)
-  nontrivial = idx > 0 or target != 'TOP' or member
+  nontrivial = idx > (2 if dynamic else 0) or target != 'TOP' or member
+  if dynamic:
+    res.w('dynamic_registration_fault')
   res.case(tuple(map(repr, case)), bool(nontrivial))
   exc, got = run_parse(mem_full, start)
   rexc, ref = run_parse(mem_ref, start)
@@ -280,9 +316,9 @@ def check_case(case, res):
       res.w('scope_restored')
     if start == 'unlocked_block':
       res.w('lock_restored')
-    if target == 'inc1.gin':
+    if target in ('inc1.gin', 'dinc1.gin'):
       res.w('fault_in_included_file')
-    if target == 'inc2.gin':
+    if target in ('inc2.gin', 'dinc2.gin'):
       res.w('fault_in_nested_include')
     if member is not None:
       res.w('fault_in_block_member')
@@ -290,6 +326,12 @@ def check_case(case, res):
   if fk == 'semantic' and isinstance(exc, fexc):
     locs = [((m.group(1) or None), int(m.group(3))) for m in LOC_RE.finditer(str(exc))]
     want = [((n if n != 'TOP' else None), l) for n, l in chain]
+    # Errors raised while a *value* is being parsed (unknown / ambiguous reference) are located at the reference
+    # token, which for a multi-line value lies inside the statement but not on its first line.  The statement names
+    # the line where the statement begins; pointing at the token inside the statement is accepted here (DESIGN §6.4).
+    if fkind in ('unknown_reference', 'ambiguous_constant', 'd_unknown_reference', 'd_unknown_ref_symbol') and locs \
+        and want and locs[0][0] == want[0][0] and want[0][1] <= locs[0][1] <= want[0][1] + ftext.count('\n'):
+      locs[0] = want[0]
     if locs != want:
       res.violation('error_location_chain', 'case %r: message names locations %r, expected %r; message: %s' %
                     (case, locs, want, str(exc)[:600]), art)
@@ -401,6 +443,21 @@ def gen_cases(tier):
               yield (list(base), 'TOP', bi, fkind, member, start)
 
 
+def dyn_cases(tier):
+  keys = list(DMENU)
+  bases = [()] + [(k,) for k in keys] + ([] if tier == 'quick' else list(itertools.product(keys, repeat=2)))
+  bases += [('dflat', 'dinclude'), ('dinclude', 'dref')]
+  for base in bases:
+    for start in STARTS:
+      for fkind in DFAULTS:
+        for idx in range(2, len(base) + 3):
+          yield (list(base), 'TOP', idx, fkind, None, start)
+        if 'dinclude' in base:
+          for tgt in ('dinc1.gin', 'dinc2.gin'):
+            for idx in range(2, len(DINC[tgt]) + 1):
+              yield (list(base), tgt, idx, fkind, None, start)
+
+
 NSH = 64
 
 
@@ -410,7 +467,7 @@ def shards(tier):
 
 def run_shard(i, tier):
   res = core.Result()
-  for n, case in enumerate(gen_cases(tier)):
+  for n, case in enumerate(itertools.chain(gen_cases(tier), dyn_cases(tier))):
     if n % NSH != i:
       continue
     if case[0] == 'prov':
